@@ -698,8 +698,8 @@ fn gen_dm(rng: &mut Rng) -> String {
     format!("dm|{}|{}", hex(&v), i)
 }
 
-pub fn gen_ivs(rng: &mut Rng, ac: usize) -> (String, String, Vec<(i16, i16, i16)>, usize) {
-    let nreg = rng.below(5) as usize;
+pub fn gen_ivs(rng: &mut Rng, ac: usize, min_items: usize, clean: bool) -> (String, String, Vec<(i16, i16, i16)>, usize) {
+    let nreg = if clean { 1 + rng.below(4) as usize } else { rng.below(5) as usize };
     let mut regs = vec![];
     for _ in 0..nreg * ac {
         regs.push(gen_axis(rng));
@@ -707,14 +707,14 @@ pub fn gen_ivs(rng: &mut Rng, ac: usize) -> (String, String, Vec<(i16, i16, i16)
     let nivd = 1 + rng.below(3) as usize;
     let mut ivds = vec![];
     for _ in 0..nivd {
-        let ric = rng.below(nreg as u64 + 1) as usize + if rng.chance(1, 30) { 1 } else { 0 };
+        let ric = rng.below(nreg as u64 + 1) as usize + if !clean && rng.chance(1, 30) { 1 } else { 0 };
         let long = rng.chance(1, 6);
-        let wc = if rng.chance(1, 25) { ric + 1 } else { rng.below(ric as u64 + 1) as usize };
+        let wc = if !clean && rng.chance(1, 25) { ric + 1 } else { rng.below(ric as u64 + 1) as usize };
         let wdc = (wc as u16) | if long { 0x8000 } else { 0 };
         let regions: Vec<u16> = (0..ric)
-            .map(|_| if rng.chance(1, 40) { nreg as u16 + rng.below(2) as u16 } else { rng.below(nreg.max(1) as u64) as u16 })
+            .map(|_| if !clean && rng.chance(1, 40) { nreg as u16 + rng.below(2) as u16 } else { rng.below(nreg.max(1) as u64) as u16 })
             .collect();
-        let items = rng.below(4) as usize;
+        let items = min_items + rng.below(4) as usize;
         let row = (ric + wc) * if long { 2 } else { 1 };
         let mut data: Vec<u8> = vec![];
         for _ in 0..items * row {
@@ -728,7 +728,7 @@ pub fn gen_ivs(rng: &mut Rng, ac: usize) -> (String, String, Vec<(i16, i16, i16)
 
 fn gen_iv(rng: &mut Rng) -> String {
     let ac = 1 + rng.below(3) as usize;
-    let (rs, ivds, regs, nivd) = gen_ivs(rng, ac);
+    let (rs, ivds, regs, nivd) = gen_ivs(rng, ac, 0, false);
     let outer = rng.below(nivd as u64 + 1);
     let inner = rng.below(5);
     let t: Vec<i16> = (0..ac)
